@@ -209,3 +209,60 @@ func vh_fsm_pairing() {
 	vAssert(len(r.fsmMutateCh) == 0, "C02.fsm.batch-consumed")
 	vReach("fsm.end")
 }
+
+// vh_fsm_position: the FSM goroutine's (lastIndex, lastTerm) - what snapshots
+// are stamped with - after a batch, after a restore, after a failed restore.
+// C11 (snapshot index/term are those of the applied history), C02.FSM-PAIRING (restore).
+func vh_fsm_position() {
+	r, env := vNewRaft("a", vRaftOpts{n: 1})
+	fsm := &mSnapFSM{}
+	r.fsm = fsm
+	// a first batch: one or two commands (the second may be a Barrier, which still advances the position in batch mode only)
+	i1, t1 := vU64("i1"), vU64("t1")
+	vAssume(i1 >= 1 && i1 < 1<<62)
+	r.fsmMutateCh <- []*commitTuple{{&Log{Index: i1, Term: t1, Type: LogCommand}, nil}}
+	scenario := vChoose("scenario", 0, 2)
+	var rf *restoreFuture
+	var meta *SnapshotMeta
+	if scenario >= 1 {
+		meta = &SnapshotMeta{Version: SnapshotVersionMax, ID: "snapA", Index: vU64("snap.index"), Term: vU64("snap.term")}
+		env.snaps.metas = []*SnapshotMeta{meta}
+		if scenario == 2 {
+			fsm.restoreFail = true
+		}
+		rf = &restoreFuture{ID: "snapA"}
+		rf.init()
+		r.fsmMutateCh <- rf
+	}
+	req := &reqSnapshotFuture{}
+	req.init()
+	vAssertNoPanic("C02.fsmpos.no-panic")
+	vRunUntilBlocked(r.runFSM) // the batch and the restore are served first (channel FIFO) ...
+	vGo(func() { r.fsmSnapshotCh <- req })
+	vQuiesce() // ... then the snapshot request
+	done, err := vFutureErr(&req.deferError)
+	vAssert(done && err == nil, "C11.fsmpos.snapshot-request-answered")
+	nRestore := 0
+	for _, c := range fsm.calls {
+		if c.op == opFSMRestore {
+			nRestore++
+		}
+	}
+	switch scenario {
+	case 0:
+		vCover("fsmpos.after-batch")
+		vAssert(req.index == i1 && req.term == t1, "C11.fsmpos.stamp-is-last-applied-entry")
+	case 1:
+		vCover("fsmpos.after-restore")
+		d, e := vFutureErr(&rf.deferError)
+		vAssert(d && e == nil && nRestore == 1, "C02.fsmpos.restore-once")
+		vAssert(req.index == meta.Index && req.term == meta.Term, "C11.fsmpos.stamp-is-restored-snapshot")
+		vAssert(req.index == meta.Index && req.term == meta.Term, "C02.fsmpos.position-after-restore")
+	case 2:
+		vCover("fsmpos.after-failed-restore")
+		d, e := vFutureErr(&rf.deferError)
+		vAssert(d && e != nil, "C02.fsmpos.failed-restore-reported")
+		vAssert(req.index == i1 && req.term == t1, "C11.fsmpos.failed-restore-keeps-position")
+	}
+	vReach("fsmpos.end")
+}
